@@ -487,3 +487,15 @@ M("opc6-swap-dropped", "C02", LL, 'end == offs - 2 and code[offs] in (op["SWAP"]
 M("opc8-fallthrough", "C01", LL, "            todo.append((offs + 2, stack))", "            todo.append((offs + 4, stack))", "OPC-8", accept_analysis_error=True)
 M("opc8-jmul-39", "C01", LL, "    jmul = 2 if sys.version_info >= (3, 10) else 1", "    jmul = 2 if sys.version_info >= (3, 9) else 1", "OPC-8")
 M("opc8-extarg-shift", "C01", LL, "            arg = (arg << 8) | code[offs + 1]", "            arg = (arg << 4) | code[offs + 1]", "OPC-8")
+
+# ---------------------------------------------------------------- after sweep r2 (C18 / C19 / C12)
+M("fmt10-stack-marker-swapped", "C18", TY, "                marker = start_frame if idx == 0 else continue_frame", "                marker = start_frame if idx != 0 else continue_frame", "FMT-10")
+M("fmt10-context-first-continue", "C18", TY, "                    if idx == 0:\n                        lines.append(start_context + line)", "                    if idx == 0:\n                        lines.append(continue_context + line)", "FMT-10")
+M("fmt11-leaf-inverted", "C18", TY, "        if self.leaf is not None:\n            lines.append(f\"{start_leaf}{self.leaf!r}\\n\")", "        if self.leaf is None:\n            lines.append(f\"{start_leaf}{self.leaf!r}\\n\")", "FMT-11")
+M("fmt11-error-dropped", "C18", TY, "        if self.error is not None:\n            lines.extend(self._format_error())\n        return lines\n\n    def format_flat", "        return lines\n\n    def format_flat", "FMT-11")
+M("fmt11-error-lines-lost", "C18", TY, "                for subline in line.splitlines(True):\n                    yield \"  \" + subline", "                pass", "FMT-11")
+M("fmt12-no-yield-plain", "C19", TY, "            else:\n                yield frame.as_stdlib_summary(capture_locals=capture_locals)", "            else:\n                pass", "FMT-12")
+M("fmt12-capture-inverted", "C19", TY, "        if capture_locals:\n            save_locals = {\n                name: repr(value)", "        if not capture_locals:\n            save_locals = {\n                name: repr(value)", "FMT-12")
+M("fmt12-flat-default", "C19", TY, "    def format_flat(self, *, show_contexts: bool = False) -> List[str]:", "    def format_flat(self, *, show_contexts: bool = True) -> List[str]:", "FMT-12")
+M("fmt4-exiting-operand-dropped", "C19", TY, "        if not (self.contexts and self.contexts[-1].is_exiting):\n            yield self.as_stdlib_summary", "        if not self.contexts:\n            yield self.as_stdlib_summary", "FMT-4")
+M("reg5-hide-line-inverted", "C12", CU, "        if hide_line:\n            frame.hide_line = True", "        if not hide_line:\n            frame.hide_line = True", "REG-5")
